@@ -18,7 +18,13 @@ func main() {
 	}
 	for _, p := range pkgs {
 		t0 := time.Now()
-		tp, err := wab.BuildTestPackage(p)
+		var tp *wab.TestPackage
+		var err error
+		if len(p) > 0 && p[0] == '/' {
+			tp, err = wab.BuildProgram(p)
+		} else {
+			tp, err = wab.BuildTestPackage(p)
+		}
 		if err != nil {
 			fmt.Println(p, "BUILD ERR", err)
 			continue
